@@ -1,7 +1,7 @@
 """
 C14 — fn:path / node.path / etree_iter_paths identify each node uniquely.
 
- prove     : EPV.Props.C14 (path_selects_self, path_injective, paths_pairwise_distinct, path_eq_spec,
+ prove     : EPV.Props.C14Tables (generated literal table) and EPV.Props.C14 (path_selects_self, path_injective, paths_pairwise_distinct, path_eq_spec,
              etree_paths_agree/complete/select_self, fn_path_fragment, string level: parse_render_*,
              render_injective, path_text_selects_self, path_text_injective; F14f and pinned-tree witnesses)
  correspond: generated XML trees (repeated names, namespaced names through several prefixes, default
@@ -22,11 +22,10 @@ C14 — fn:path / node.path / etree_iter_paths identify each node uniquely.
              (none, the document's, hostile, renamed prefixes), and the paths of parent-less nodes.
  search    : exhaustive small trees (<= 5 nodes quick / <= 6 thorough, two element names, two PI targets one
              of which equals an element name, text, comment), lxml + ElementTree, document / element / fragment.
- tags      : every disagreement carries the ids of the repaired defects (F14a..F14e) whose trigger predicate
-             holds for the input (computed from the tree, never from the observed output); F14f (absolute
-             node.path evaluated in a fragment context) is the only listed finding and covers only the
-             field "nodes selected by node.path" of fragment cases, where the real selection is moreover
-             compared with the Lean model of that behaviour (evalAbsInFragment).
+ tags      : only the known finding F14f (absolute node.path evaluated in a fragment context) is tagged, on the
+             field "nodes selected by node.path" of fragment cases, where the real selection is moreover compared
+             with the Lean model of that behaviour (evalAbsInFragment).  Tags of repaired defects were dropped.
+ translate : string literals of the anchored functions (ast) -> EPV/Gen/C14Literals.lean; EPV.C14.literals_as_modelled.
 """
 from __future__ import annotations
 
@@ -355,11 +354,9 @@ def libdoc_request(case):
         try:
             if lib == 'lxml':
                 r = etree.XML(ld['a'].encode('utf-8'))
-            elif ld['kind'] == 'parse-xml':
-                # fn:parse-xml keeps comments and PIs with ElementTree, fn:parse-xml-fragment does not
-                r = etree.XML(ld['a'], etree.XMLParser(target=etree.TreeBuilder(insert_comments=True, insert_pis=True)))
             else:
-                r = etree.XML(ld['a'])
+                # comments and PIs are kept with ElementTree too (fn:parse-xml always, fn:parse-xml-fragment since fix-c14-4)
+                r = etree.XML(ld['a'], etree.XMLParser(target=etree.TreeBuilder(insert_comments=True, insert_pis=True)))
             sibs_before = list(reversed(list(r.itersiblings(preceding=True)))) if lib == 'lxml' else []
             sibs_after = list(r.itersiblings()) if lib == 'lxml' else []
             kk = sibs_before + [r] + sibs_after
@@ -370,8 +367,11 @@ def libdoc_request(case):
         except Exception:
             if ld['kind'] == 'parse-xml':
                 raise
-            w = etree.XML(('<document>%s</document>' % ld['a']).encode('utf-8') if lib == 'lxml'
-                          else '<document>%s</document>' % ld['a'])
+            if lib == 'lxml':
+                w = etree.XML(('<document>%s</document>' % ld['a']).encode('utf-8'))
+            else:
+                w = etree.XML('<document>%s</document>' % ld['a'],
+                              etree.XMLParser(target=etree.TreeBuilder(insert_comments=True, insert_pis=True)))
             wrapper_tokens(w.text, list(w), lib, ns, toks, kinds)
     elif node is not None:
         v = node.value
@@ -506,18 +506,41 @@ def run_impl_inner(case, parsed):
             return 'D' if isinstance(item, DocumentNode) else 'X'
         return 'V'
 
+    # ONE parser instance per (class, namespaces) for the whole run, and ONE parsed token per fixed expression:
+    # the same parser parses every path text, the same `path(.)` token is evaluated on every node of every tree
+    pkey = tuple(sorted(pns.items()))
+
+    def parser_of(P):
+        k = (P.__name__, pkey)
+        if k not in _PARSERS:
+            _PARSERS[k] = P(namespaces=dict(pns))
+        return _PARSERS[k]
+
+    def token_of(P, expr):
+        k = (P.__name__, pkey, expr)
+        if k not in _TOKENS:
+            _TOKENS[k] = parser_of(P).parse(expr)
+        return _TOKENS[k]
+
+    trees = {}
+
     def evaluate(P, expr, item=None) -> str:
         try:
             ctx = XPathContext(tree, item=item, fragment=frag)
-            out = [idx(x) for x in P(namespaces=pns).parse(expr).select(ctx)]
+            tok = parser_of(P).parse(expr)
+            trees[(P.__name__, expr)] = tok.tree
+            out = [idx(x) for x in tok.select(ctx)]
             return ','.join(out) if out else '-'
         except Exception as e:
             return err_text(e)
 
     def fnpath(P, n, expr='path(.)') -> str:
         try:
-            ctx = XPathContext(tree, item=n, fragment=frag)
-            out = list(P(namespaces=pns).parse(expr).select(ctx))
+            tok = token_of(P, expr)
+            out = list(tok.select(XPathContext(tree, item=n, fragment=frag)))
+            ev = tok.evaluate(XPathContext(tree, item=n, fragment=frag))       # the other public evaluation path
+            if (ev if isinstance(ev, list) else [ev]) != out:
+                res['problems'].append(f'{expr}: evaluate() gave {ev!r:.80}, select() gave {out!r:.80}')
             if len(out) == 1 and isinstance(out[0], str):
                 return out[0]
             return 'NOT-ONE-STRING:' + repr(out)[:60]
@@ -537,12 +560,33 @@ def run_impl_inner(case, parsed):
             res['problems'].append(f'path(.) with one 3.x parser and path() with the other differ: {fp!r} {fp2!r}')
         sel = evaluate(P1, p)
         selfn = evaluate(P2, fp) if not fp.startswith(('ERR', 'NOT-')) else fp
-        res['recs'].append((p, fp, sel, selfn))
+        res['recs'].append((p, fp, sel, selfn, trees.get((P1.__name__, p), 'NO-TREE'),
+                            trees.get((P2.__name__, fp), 'NO-TREE')))
         try:
             if n.path != p:                    # second read on the same object, after it has been evaluated
                 res['problems'].append(f'node.path changed between two reads: {p!r} {n.path!r}')
         except Exception as e:
             res['problems'].append('second read of node.path: ' + err_text(e))
+    # the public high-level API on the original ElementTree / lxml object: select(), Selector.select/iter_select
+    if not case.get('libdoc') and obj is not None:
+        try:
+            import elementpath as _ep
+            from elementpath.xpath_nodes import ElementNode as _EN
+            elems = [(i, n) for i, n in enumerate(nodes) if isinstance(n, _EN)]
+            step = max(1, len(elems) // 3)
+            for i, n in elems[::step][:3]:
+                p = res['recs'][i][0]
+                kw = {'fragment': frag} if frag is not None else {}
+                r1 = _ep.select(obj, p, namespaces=dict(pns), parser=P1, **kw)
+                sel_ = _ep.Selector(p, namespaces=dict(pns), parser=P2)
+                r2 = sel_.select(obj, **kw)
+                r3 = list(sel_.iter_select(obj, **kw))
+                want = [] if frag else [n.value]
+                for nm, r in (('select', r1), ('Selector.select', r2), ('Selector.iter_select', r3)):
+                    if not frag and not (len(r) == 1 and r[0] is n.value):
+                        res['problems'].append(f'{nm}(root, {p!r}) gave {r!r:.80}, expected the element itself')
+        except Exception as e:
+            res['problems'].append('high-level select of node.path: ' + err_text(e))
     # fn:path(()) is the empty sequence; fn:path of a node of ANOTHER tree (not under the context root) is that
     # node's path in its own tree (F&O 3.1 14.6 has no "context root" condition)
     try:
@@ -556,7 +600,7 @@ def run_impl_inner(case, parsed):
                 for j in sorted({0, len(onodes) // 2, len(onodes) - 1}):
                     got = list(P1(namespaces=pns).parse('path(.)').select(XPathContext(tree, item=onodes[j], fragment=frag)))
                     if got != [res['recs'][j][1]]:
-                        res['problems'].append(f'[F14h] path(.) of node {j} of another tree (same input) gave {got!r:.80}, '
+                        res['problems'].append(f'path(.) of node {j} of another tree (same input) gave {got!r:.80}, '
                                                f'expected {res["recs"][j][1]!r:.80}')
     except Exception as e:
         res['problems'].append('fn:path on () / foreign node: ' + err_text(e))
@@ -569,21 +613,17 @@ def run_impl_inner(case, parsed):
             xroot = (_ET if case['lib'] == 'et' else _LE).XML('<x/>')
             expected = [r[1] for r, kd in zip(res['recs'], res['kinds']) if kd[0] in ('doc', 'elem', 'text', 'comment', 'pi')]
             call = LIB_EXPR[ld['kind']]
-            if res['kinds'] and res['kinds'][0][0] == 'doc':
-                # (the kind test node() of this implementation does not match a document node, so the
-                #  document itself is asked separately)
-                exprs = [('$d/path()', expected[:1]), ('$d//node()/path()', expected[1:]),
-                         (call + '/path()', expected[:1]), (call + '//node() ! path(.)', expected[1:]),
-                         (f'let $e := {call} return $e/descendant::node()/path()', expected[1:])]
-            else:
-                exprs = [('$d/descendant-or-self::node()/path()', expected),
-                         (call + '/descendant-or-self::node() ! path(.)', expected),
-                         (f'let $e := {call} return $e//node()/path()', expected[1:])]
+            # node() matches every node, the document node included (XPath 3.1 2.5.5.1 / 3.3.2.2; fix-c14-4)
+            exprs = [('$d/descendant-or-self::node()/path()', expected),
+                     ('($d, $d//node())/self::node()/path()', expected),
+                     (call + '/descendant-or-self::node() ! path(.)', expected),
+                     (f'let $e := {call} return $e//node()/path()', expected[1:]),
+                     (f'let $e := {call} return $e/self::node()/path()', expected[:1])]
             for expr, exp in exprs:
                 got = list(P1(namespaces=pns).parse(expr).select(
                     XPathContext(xroot, variables={'d': tree, 'a': ld['a'], 'b': ld['b']})))
                 if got != exp:
-                    res['problems'].append(f'[F14h] {expr} gave {got!r:.200} expected {exp!r:.200}')
+                    res['problems'].append(f'{expr} gave {got!r:.200} expected {exp!r:.200}')
         except Exception as e:
             res['problems'].append('library document inside one expression: ' + err_text(e))
     # the same tree iterated without building lazy components must be the same node sequence
@@ -657,32 +697,14 @@ def run_impl_inner(case, parsed):
 # trigger predicates of the defects (computed from the input only)
 # --------------------------------------------------------------------------------------
 def triggers(kinds, rel, k, case=None) -> list[str]:
-    """ids of the (repaired) defects whose trigger predicate holds for node k, i.e. for k itself or one
-    of its ancestors / its owner element (their wrong step is a prefix of k's path):
-    F14a: a PI with a preceding PI sibling of another target  (Lean: not pinnedSafe)
-    F14e: a no-namespace element with a preceding PI sibling whose target is its name  (Lean: not pinnedSafe)
-    F14b: a PI whose target the 3.x parser lexes as an operator keyword / proxied function name"""
-    sibs, parent = rel
-    tags = []
-    j = k
-    while j is not None:
-        kind, name = kinds[j]
-        ss = sibs.get(j)
-        if ss is not None:
-            before = ss[:ss.index(j)]
-            if kind == 'pi':
-                if any(kinds[i][0] == 'pi' and kinds[i][1] != name for i in before) and 'F14a' not in tags:
-                    tags.append('F14a')
-                if reserved_target(name) and 'F14b' not in tags:
-                    tags.append('F14b')
-            if kind == 'elem' and name[:1] != '{':
-                if any(kinds[i] == ('pi', name) for i in before) and 'F14e' not in tags:
-                    tags.append('F14e')
-        j = parent.get(j)
-    return tags
+    """tags of known findings whose trigger holds for node k.  The defects F14a-e, F14g, F14h are repaired in the
+    reference tree, their trigger tags were dropped in phase 3; F14f is tagged where it applies (fragment cases)."""
+    return []
 
 
 _reserved_cache: dict = {}
+_PARSERS: dict = {}
+_TOKENS: dict = {}
 
 
 def reserved_target(name: str) -> bool:
@@ -753,7 +775,7 @@ def parse_answer(ans: str):
         k, _, v = part.partition('=')
         f[k] = v
     def recs(s):
-        return [] if s == '-' else [tuple(r.split(';')) for r in s.split('|')]
+        return [] if s == '-' else [tuple(x.replace('\t', ' ') for x in r.split(';')) for r in s.split('|')]
     return recs(f['model']), recs(f['spec']), recs(f['etree']), recs(f['especs']), f.get('wf'), recs(f['evariants'])
 
 
@@ -783,9 +805,7 @@ def compare(run: Run, cases: list, count=True) -> None:
             run.disagree(Disagreement(base, 'input', 'wf=0', what='model-wf (duplicate attribute name or prefix)'))
             continue
         for pb in impl['problems']:
-            # '[F14h]': fn:path was asked for a node whose tree root is not the context root (trigger of F14h)
-            tags = ['F14h'] if pb.startswith('[F14h] ') else []
-            run.disagree(Disagreement(base, pb, None, spec='no-problem', what='impl-problem', tags=tags,
+            run.disagree(Disagreement(base, pb, None, spec='no-problem', what='impl-problem',
                                       site='xpath_nodes / evaluate__path'))
         if impl['problems'] and not impl['kinds']:
             continue
@@ -811,12 +831,18 @@ def compare(run: Run, cases: list, count=True) -> None:
                     st.count('position>1:' + kinds[k][0])
                 if kinds[k][0] == 'pi' and reserved_target(kinds[k][1]):
                     st.count('pi-target-is-parser-keyword')
-            if ';'.join(mrec) != ';'.join(srec) and not is_fragment:
+            if ';'.join(mrec[:4]) != ';'.join(srec[:4]) and not is_fragment:
                 run.broken.append(f'model-vs-spec:{line[:120]} node {k}')
             c = dict(base, node=k, node_kind=list(kinds[k]))
             if i_s != s_s or i_s != m_s:
                 run.disagree(Disagreement(c, i_s, m_s, spec=s_s, what='node-path', tags=triggers(kinds, sibs, k, case),
                                           site='xpath_nodes.path / get_child_position / fn:path'))
+            # the token tree the real 3.x parser builds for the two texts == the recogniser's reading of them
+            if (irec[4], irec[5]) != (srec[4], srec[5]) and not (irec[0].startswith('ERR') or irec[1].startswith(('ERR', 'NOT-'))):
+                run.disagree(Disagreement(c, f'{irec[4]} | {irec[5]}', None, spec=f'{srec[4]} | {srec[5]}',
+                                          what='parser-token-tree', site='XPath30Parser / XPath31Parser .parse(path).tree'))
+            elif count:
+                st.count('parser-token-trees-compared', 2)
             # the absolute node.path evaluated back
             if irec[2] != srec[2]:
                 tags = triggers(kinds, sibs, k, case)
@@ -870,8 +896,6 @@ def compare(run: Run, cases: list, count=True) -> None:
                 bad = next((i for i, (a, b) in enumerate(zip(got, exp)) if a != b), min(len(got), len(exp)))
                 k = exp[bad][0] if bad < len(exp) else '?'
                 tags = [t for t in (triggers(kinds, sibs, int(k), case) if k.isdigit() else []) if t == 'F14b']
-                if k.isdigit() and kinds[int(k)][0] in ('comment', 'pi') and sibs[1].get(int(k)) == int(exp[0][0]):
-                    tags.append('F14g')    # trigger: path argument '' or '/', comment / PI child of the element
                 run.disagree(Disagreement(dict(base, node=k, path_argument=lead), ';'.join(got[bad]) if bad < len(got) else 'missing',
                                           None, spec=';'.join(exp[bad]) if bad < len(exp) else 'nothing', tags=tags,
                                           what=f'etree_iter_paths(path={lead!r})', site='etree.etree_iter_paths'))
@@ -909,15 +933,15 @@ def orphan_checks(run: Run) -> None:
     from elementpath import xpath_nodes as xn
     import xml.etree.ElementTree as ET
     items = [
-        ('P,foo', lambda: xn.ProcessingInstructionNode('foo', 'bar'), ['F14c']),
-        ('P,pi', lambda: xn.ProcessingInstructionNode(ET.ProcessingInstruction('pi', 'x')), ['F14c']),
+        ('P,foo', lambda: xn.ProcessingInstructionNode('foo', 'bar'), []),
+        ('P,pi', lambda: xn.ProcessingInstructionNode(ET.ProcessingInstruction('pi', 'x')), []),
         ('T', lambda: xn.TextNode('x'), []),
         ('C', lambda: xn.CommentNode(ET.Comment('x')), []),
         ('A,~,a', lambda: xn.TextAttributeNode('a', '1'), []),
         ('A,urn:p,a', lambda: xn.TextAttributeNode('{urn:p}a', '1'), []),
-        ('N,p', lambda: xn.NamespaceNode('p', 'urn:p'), ['F14d']),
-        ('N,~', lambda: xn.NamespaceNode('', 'urn:d'), ['F14d']),
-        ('N,~', lambda: xn.NamespaceNode(None, 'urn:d'), ['F14d']),
+        ('N,p', lambda: xn.NamespaceNode('p', 'urn:p'), []),
+        ('N,~', lambda: xn.NamespaceNode('', 'urn:d'), []),
+        ('N,~', lambda: xn.NamespaceNode(None, 'urn:d'), []),
         ('E,~,a,0,0,0', lambda: xn.EtreeElementNode(ET.Element('a')), []),
         ('E,urn:p,a,0,0,0', lambda: xn.EtreeElementNode(ET.Element('{urn:p}a')), []),
     ]
@@ -997,7 +1021,7 @@ def lib_corpus():
 
 def correspond(run: Run) -> None:
     rng = run.rng
-    n = run.scale(1500, 24000)
+    n = run.scale(1000, 16000)
     cases = corpus() + lib_corpus() + [gen_case(rng, run.quick) for _ in range(n)] \
         + [gen_libcase(rng) for _ in range(n // 5)]
     run.stats.rule = (
@@ -1132,6 +1156,75 @@ def shrink(d: Disagreement) -> Disagreement:
     return best
 
 
+# --------------------------------------------------------------------------------------
+# translator: the string literals of the anchored functions -> lean/EPV/Gen/C14Literals.lean
+# (EPV.C14.literals_as_modelled proves by `decide` that they are the literals of the Lean renderer)
+# --------------------------------------------------------------------------------------
+LITERAL_SITES = [
+    ('elementpath/xpath_nodes.py', 'NamespaceNode', 'path'), ('elementpath/xpath_nodes.py', 'AttributeNode', 'path'),
+    ('elementpath/xpath_nodes.py', 'AttributeNode', 'uri_qualified_name'), ('elementpath/xpath_nodes.py', 'TextNode', 'path'),
+    ('elementpath/xpath_nodes.py', 'CommentNode', 'path'), ('elementpath/xpath_nodes.py', 'ProcessingInstructionNode', 'path'),
+    ('elementpath/xpath_nodes.py', 'ElementNode', 'path'), ('elementpath/xpath_nodes.py', 'ElementNode', 'uri_qualified_name'),
+    ('elementpath/xpath_nodes.py', 'DocumentNode', 'path'), ('elementpath/xpath_nodes.py', 'XPathNode', 'get_child_position'),
+    ('elementpath/xpath30/_xpath30_functions.py', None, 'evaluate__path'), ('elementpath/etree.py', None, 'etree_iter_paths'),
+]
+
+
+def translate(run: Run = None) -> dict:
+    import ast
+    from harness.common import REPO, LEAN
+    out = []
+    cache = {}
+    for rel, cls, fn in LITERAL_SITES:
+        if rel not in cache:
+            cache[rel] = ast.parse((REPO / rel).read_text())
+        mod = cache[rel]
+        scope = mod.body
+        if cls is not None:
+            scope = next((c.body for c in mod.body if isinstance(c, ast.ClassDef) and c.name == cls), [])
+        f = next((x for x in scope if isinstance(x, ast.FunctionDef) and x.name == fn), None)
+        lits = set()
+        if f is not None:
+            doc = ast.get_docstring(f, clean=False)
+            for stmt in f.body:                       # the body only: decorators and annotations are not literals of the code
+                for n in ast.walk(stmt):
+                    if isinstance(n, ast.Constant) and isinstance(n.value, str) and n.value != doc:
+                        lits.add(n.value)
+        else:
+            lits.add('<function not found>')
+        out.append((f'{cls + "." if cls else ""}{fn}', sorted(lits)))
+    try:
+        from elementpath import xpath_nodes as xn
+        from elementpath.namespaces import XPATH_FUNCTIONS_NAMESPACE
+        out.append(('_EMPTY_NAME_PATH', [xn._EMPTY_NAME_PATH]))
+        out.append(('XPATH_FUNCTIONS_NAMESPACE', [XPATH_FUNCTIONS_NAMESPACE]))
+    except Exception as e:
+        out.append(('_EMPTY_NAME_PATH', ['<' + type(e).__name__ + '>']))
+
+    def chars(t):
+        def one(c):
+            if c == "'":
+                return "'\\''"
+            if c == '\\':
+                return "'\\\\'"
+            if c == '\n':
+                return "'\\n'"
+            return f"'{c}'"
+        return '[' + ', '.join(one(c) for c in t) + ']'
+    lines = ['/- GENERATED by harness/c14.py::translate from the live /repo sources -- do not edit -/',
+             'namespace EPV.Gen.C14', '',
+             '/-- string literals occurring in the body of each anchored function (sorted, without duplicates) -/',
+             'def implLiterals : List (String × List (List Char)) := [']
+    lines.append(',\n'.join(f'  ("{k}", [{", ".join(chars(v) for v in vs)}])' for k, vs in out))
+    lines += [']', '', 'end EPV.Gen.C14', '']
+    gen = LEAN / 'EPV' / 'Gen' / 'C14Literals.lean'
+    gen.parent.mkdir(exist_ok=True)
+    text = '\n'.join(lines)
+    if not gen.exists() or gen.read_text() != text:
+        gen.write_text(text)
+    return {'literal_sites': len(out), 'literals': sum(len(v) for _, v in out)}
+
+
 def body(run: Run) -> int:
     run.trusted_base += [
         'rendering of steps to strings and re-parsing by the 3.0/3.1 parser are tied by correspondence only',
@@ -1142,7 +1235,9 @@ def body(run: Run) -> int:
         'node.path of a tree evaluated with fragment=True starts with "/" and selects nothing there (no document node: '
         'XPath 3.1 XPDY0050 territory); for fragments the property is checked through fn:path (root()/...) only',
         'element / PI names are compared as (namespace, local) pairs = Clark strings for NCNames']
-    run.prove(['EPV.Props.C14'], ['EPV.Spec.NodePathSpec'])
+    run.stats.extra['translated'] = translate(run)
+    run.trusted_base.append('translator harness/c14.py::translate (ast of the anchored functions -> string literal table)')
+    run.prove(['EPV.Props.C14', 'EPV.Props.C14Tables'], ['EPV.Spec.NodePathSpec'])
     replay = getattr(run, 'replay', None)
     try:
         if replay:
@@ -1165,4 +1260,4 @@ def body(run: Run) -> int:
 
 
 if __name__ == '__main__':
-    cli(PROP, body)
+    cli(PROP, body, translate=translate)
